@@ -328,6 +328,13 @@ func (P *Program) resolveType(s string, pkg string) types.Type {
 				return o.Type()
 			}
 		}
+		if s[:i] == "ast" { // two packages are called ast; a name not found in goldmark/ast is looked up in extension/ast
+			if tp := P.tpkgByName["east"]; tp != nil {
+				if o := tp.Scope().Lookup(s[i+1:]); o != nil {
+					return o.Type()
+				}
+			}
+		}
 		return nil
 	}
 	if tp := P.tpkgByPath[pkg]; tp != nil {
